@@ -16,7 +16,9 @@ RULE = (
     "uint16 must raise.  (C) _decompose_uniform_transform: uniform part is uniform, parts recompose.  (D) Paint.from_ot(...)."
     "gettransform() for every non-variable transform format vs the spec matrix.  (E) svg._apply_paint on a gradient under 1-3 "
     "nested transform paints plus an incoming (reuse) transform: the <linearGradient>/<radialGradient> it writes, read by the "
-    "independent SVG evaluator, gives the paint tree's colour parameter at corresponding viewBox points.  Generators are boundary-targeted (near-"
+    "independent SVG evaluator, gives the paint tree's colour parameter at corresponding viewBox points.  (F) real builds in "
+    "which a copy 40-80x smaller than its donor carries a gradient that overflows int16 when mapped into the donor's space "
+    "(the encoder's OverflowError fallback): the compiled paint graph must still paint the source's colours.  Generators are boundary-targeted (near-"
     "integer translations, scales at +-2 and 32767/16384, (1==sx)!=(0==dx), centres at int16 limits, shear, near-singular, "
     "beyond Fixed).  Non-trivial = affine that is not a plain in-range PaintTransform case; distinct = the affine itself."
 )
@@ -514,6 +516,36 @@ def run_case(case):
     except ImportError as e:
         bump("E.unavailable")
 
+    # ---------------- (F) the encoder's overflow fallback inside a real build: a copy 40-80x smaller than its donor
+    # under a gradient that is huge relative to the copy - the "wider encoding" chosen must still denote the same picture
+    try:
+        from vf.checks import c06, render_common as rc
+
+        for n in range(2):
+            svgs, m_ = c06.tiny_copy_big_gradient_set(r, 1000)
+            srcs_ = [{"svg": t_, "codepoints": [0xE000 + k_]} for k_, t_ in enumerate(svgs)]
+            before_ovf = contracts.counters().get("H7.overflow_raised", 0)
+            try:
+                built = inproc.build(srcs_, {"color_format": "glyf_colr_1", "upem": 1024, "ascender": 950, "descender": -250, "width": 1275, "reuse_tolerance": 0.1, "clip_to_viewbox": False, "keep_glyph_names": True})
+            except Exception as e:
+                if rc.is_overflow_refusal(e):
+                    bump("F.build_refused")
+                    continue
+                res["violations"].append({"what": f"build with an overflowing reuse gradient raised {type(e).__name__}: {str(e)[:200]}", "sources": svgs})
+                continue
+            bump("F.builds")
+            if contracts.counters().get("H7.overflow_raised", 0) > before_ovf:
+                bump("F.builds_through_overflow_fallback")
+            probs, _ = rc.check_colr_font(built, want_clip_check=False)
+            for p_ in probs:
+                if p_.get("mechanism"):
+                    continue  # a listed finding of the picture checks (C01), not this property's business
+                p_["what"] = "overflow fallback in a real build: " + p_["what"]
+                p_["gradient"] = m_
+                res["violations"].append(p_)
+    except ImportError:
+        bump("F.unavailable")
+
     for v in contracts.violations():
         res["violations"].append(v)
     c.update({k: v for k, v in contracts.counters().items() if k.startswith(("H1", "H7"))})
@@ -526,7 +558,7 @@ def run_case(case):
 def finish(agg):
     c = agg["counters"]
     inc = []
-    need = ["A.emitted.PaintTranslate", "A.emitted.PaintScale", "A.emitted.PaintScaleUniform", "A.emitted.PaintScaleAroundCenter", "A.emitted.PaintScaleUniformAroundCenter", "A.emitted.PaintTransform", "A.compile_refused", "B.overflow_raised", "B.t_checked", "C.decompositions", "D.from_ot_checked", "E.svg_gradients_checked", "E.depth.2", "H1.transformed", "H7.PaintRadialGradient", "repo_tests.H1.transformed"]
+    need = ["A.emitted.PaintTranslate", "A.emitted.PaintScale", "A.emitted.PaintScaleUniform", "A.emitted.PaintScaleAroundCenter", "A.emitted.PaintScaleUniformAroundCenter", "A.emitted.PaintTransform", "A.compile_refused", "B.overflow_raised", "B.t_checked", "C.decompositions", "D.from_ot_checked", "E.svg_gradients_checked", "E.depth.2", "F.builds_through_overflow_fallback", "H1.transformed", "H7.PaintRadialGradient", "repo_tests.H1.transformed"]
     for k in need:
         if c.get(k, 0) == 0:
             inc.append(f"deciding monitor/branch never reached: {k}")
